@@ -252,7 +252,7 @@ impl Prop for C02 {
         ]
     }
     fn rule(&self) -> String {
-        "six input families, each evaluated under catch_unwind in a worker process (abort/SIGSEGV is attributed to the journaled input): raw = byte soup biased to JS tokens; mutant = token-level delete/duplicate/swap/replace/insert/splice mutants of generated programs (nesting <= 64); program = gen::prog programs with all known-finding exclusions OFF; arbitrary-ast = the maintainers' Arbitrary-derived StatementList printed to source; wild = random built-in method calls chosen by index from the receiver's prototype chain with random receivers/arguments; reuse = 3-8 inputs of mixed families evaluated in sequence on ONE context. Violation = Rust panic (incl. debug assertion / overflow check), EngineError::Panic, worker death by signal. Non-trivial = the parser accepted the input and at least one statement executed (raw: lexes to >= 2 tokens and is accepted); distinct = distinct source".into()
+        "six input families, each evaluated under catch_unwind in a worker process (abort/SIGSEGV is attributed to the journaled input): raw = byte soup biased to JS tokens; mutant = token-level delete/duplicate/swap/replace/insert/splice mutants of generated programs (nesting <= 64); program = gen::prog programs with all known-finding exclusions OFF; arbitrary-ast = the maintainers' Arbitrary-derived StatementList printed to source; wild = random built-in method calls chosen by index from the receiver's prototype chain with random receivers/arguments, including re-entrant arguments (valueOf/toString/getters/Proxy traps/thenables/comparators that mutate, detach, resize, freeze or re-enter the receiver of the running builtin) and generators / async generators whose try/catch/finally operate on their own generator object while it is resumed by next/return/throw; reuse = 3-8 inputs of mixed families evaluated in sequence on ONE context. Violation = Rust panic (incl. debug assertion / overflow check), EngineError::Panic, worker death by signal. Non-trivial = the parser accepted the input and at least one statement executed (raw: lexes to >= 2 tokens and is accepted); distinct = distinct source".into()
     }
     fn run_case(&self, _env: &mut Env, stream: &str, _index: u64, tape: &[u8]) -> CaseOut {
         let mut t = Tape::new(tape);
